@@ -117,6 +117,25 @@ class GroupLinearProx(SxContract):
             yield f"group {g} zeroed as a whole or not at all", prove.holds(all(zero) or not any(zero))
 
 
+def _group_native(self, env, inp):
+    """float replay for the group wrappers: each group against the row operator on the flattened group"""
+    W = sx.to_float(inp["W"], env)
+    a = float(dag.fev(sx.lift(inp["alpha"]), env))
+    Z = PG.group_linear_prox_grad(self.groups, W.copy(), a)
+    ok = True
+    det = {"W": W.tolist(), "alpha": a, "groups": self.groups, "code": np.asarray(Z).tolist()}
+    for g in self.groups:
+        flat = W[g].reshape(-1)
+        want = np.array(spec.group_lasso_row(list(flat), a), dtype=float).reshape(W[g].shape)
+        if not close(Z[g], want):
+            ok = False
+            det["spec for group %s" % g] = want.tolist()
+    return {"*": (ok, det)}
+
+
+GroupLinearProx.native = _group_native
+
+
 class HierProx(SxContract):
     """mlp_prox_grad(v, u, alpha, M) for one feature (row): feasibility and the KKT certificate of specs/prox.py.
     requires alpha > 0, M > 0 (interior; alpha == 0 and M == 0 are the structures 'alpha0', 'M0'), v not all zero."""
@@ -240,6 +259,23 @@ class GroupHierProx(SxContract):
                     yield f"W_skip[{f},{j}]==prox of flattened group {g}", prove.eq(B[f, j], b[0, a * self.k + j])
                 for j in range(self.h):
                     yield f"W1[{f},{j}]==prox of flattened group {g}", prove.eq(T[f, j], t[0, a * self.h + j])
+
+
+def _group_hier_native(self, env, inp):
+    V, U = sx.to_float(inp["V"], env), sx.to_float(inp["U"], env)
+    a = float(dag.fev(sx.lift(inp["alpha"]), env))
+    M = float(dag.fev(sx.lift(inp["M"]), env))
+    B, T = PG.group_mlp_prox_grad(self.groups, V.copy(), U.copy(), a, M)
+    ok = True
+    det = {"V": V.tolist(), "U": U.tolist(), "alpha": a, "M": M, "groups": self.groups}
+    for g in self.groups:
+        b, t = PG.mlp_prox_grad(V[g].reshape((1, -1)), U[g].reshape((1, -1)), a, M)
+        if not (close(B[g].reshape(-1), b.reshape(-1)) and close(T[g].reshape(-1), t.reshape(-1))):
+            ok = False
+    return {"*": (ok, det)}
+
+
+GroupHierProx.native = _group_hier_native
 
 
 def task(kind, args, seed=0):
